@@ -28,7 +28,7 @@ const indexItemsPerPage = 1024 * 256
 // StoreRec is one durable modification, in the order it happened.
 type StoreRec struct {
 	Rel   string // file path relative to the queue root
-	Kind  string // "create", "write", "remove"
+	Kind  string // "create", "write", "remove", "mkdir" (Rel = the directory of a consumer group)
 	Size  int    // for create
 	Off   int
 	Bytes []byte
@@ -186,11 +186,28 @@ func (w *World) newFactory(path string, pageSize int) (page.Factory, error) {
 			}
 		}
 	}
+	// the directory of a consumer group is made by the real factory constructor (MkDirIfNotExist) BEFORE any page of it
+	// is acquired: "directory exists, meta page file does not" is a durable state of its own (a failed page
+	// acquisition or a kill right here leaves it), so the mkdir is a logged, observable, imageable step
+	_, statErr := os.Stat(path)
+	dirMissing := f.kind == "cg" && os.IsNotExist(statErr)
 	inner, err := page.NewFactory(path, pageSize)
 	if err != nil {
 		return nil, err
 	}
 	f.inner = inner
+	if dirMissing {
+		w.mu.Lock()
+		w.Log = append(w.Log, StoreRec{Rel: rel, Kind: "mkdir"})
+		if w.Suppress == 0 {
+			w.emitPutStartLocked()
+			w.Rec.Emit("Store", trace.F{"t": w.thread(), "k": "mkgdir", "g": f.group})
+		}
+		if w.OnStore != nil {
+			w.OnStore(len(w.Log) - 1)
+		}
+		w.mu.Unlock()
+	}
 	return f, nil
 }
 
@@ -445,6 +462,10 @@ func (w *World) Materialise(k int, dir string) error {
 	for _, s := range log {
 		full := filepath.Join(dir, s.Rel)
 		switch s.Kind {
+		case "mkdir":
+			if err := os.MkdirAll(full, 0o755); err != nil {
+				return err
+			}
 		case "create":
 			if err := os.MkdirAll(filepath.Dir(full), 0o755); err != nil {
 				return err
